@@ -15,8 +15,10 @@
 //! non-finite sample in the device buffer is a plain violation whatever the (finite) arguments:
 //! the former NaN findings (F5, F29, F33, F36 NaN half, F37, F38, F39) are no longer classes of
 //! this property; their witnesses are kept as regression scenes that must render finite output.
-//! The classes left are the ones whose observable is a callback that does not return (F7, F8, F34,
-//! F36 through a rate / clock speed, F40).
+//! The classes left are the ones whose observable is a callback that does not return (F8, F34,
+//! F36 through a playback rate, F40).  F7 (the clock's tick loop) is repaired as well: `Clock::update`
+//! splits its timer with `floor` in constant time; clock speeds are drawn without restriction and the
+//! F7 witnesses are regression scenes (a callback that does not return there is a plain violation).
 //!
 //! Attribution of a failure to a known finding is COUNTERFACTUAL: the scene must contain the
 //! finding's trigger (a predicate on the scene data, see `classes()`), the observed failure must be
@@ -55,7 +57,6 @@ use std::time::Duration;
 
 /// classes of known findings (see known_findings.json); each has a trigger predicate and a
 /// neutraliser in `classes()`
-const HZ_CLOCK: &str = "clock_speed_tick_loop_diverges";
 const HZ_RATE: &str = "playback_rate_loop_diverges";
 const HZ_RATE_COST: &str = "playback_rate_cost_unbounded";
 const HZ_EASING: &str = "easing_power_negative";
@@ -967,7 +968,8 @@ struct Class {
 }
 
 /// F36 (its hang half): a power-curve easing with a negative power (Easing::apply then maps [0,1] to
-/// [1, inf]); through set_playback_rate / a clock speed the carry loops reach 2^53
+/// [1, inf]); through set_playback_rate the sounds' carry loops reach 2^53 (through a clock speed nothing
+/// loops any more since the F7 repair)
 fn neut_easing(sc: &mut Scene) -> bool {
 	let mut hit = false;
 	for_each_easing(sc, &mut |e| {
@@ -1016,19 +1018,6 @@ fn neut_rate_cost(sc: &mut Scene) -> bool {
 	for_each_rate(sc, &mut |r, k| {
 		if r.abs() * k > 1000.0 {
 			*r = r.signum();
-			hit = true;
-		}
-	});
-	hit
-}
-/// F7: a clock speed whose ticks-per-chunk reaches 2^53 (or is infinite)
-fn neut_clock(sc: &mut Scene) -> bool {
-	let mut hit = false;
-	let dt = sc.ibs as f64 / min_sr(sc) as f64;
-	for_each_speed(sc, &mut |s| {
-		let t = s.as_ticks_per_second() * dt;
-		if t >= TWO53 {
-			*s = ClockSpeed::TicksPerSecond(2.0);
 			hit = true;
 		}
 	});
@@ -1086,7 +1075,6 @@ fn classes() -> Vec<Class> {
 		c(HZ_RESYNC, "", &["alloc"], neut_resync),
 		c(HZ_EASING, "", HANG, neut_easing),
 		c(HZ_SEEK, "", HANG, neut_seek),
-		c(HZ_CLOCK, "", HANG, neut_clock),
 		c(HZ_RATE, "", HANG, neut_rate),
 		c(HZ_RATE_COST, "", HANG, neut_rate_cost),
 	]
@@ -1338,7 +1326,23 @@ impl<'a> Gen<'a> {
 	}
 	fn clock_speed(&mut self) -> ClockSpeed {
 		if self.boundary && self.r.chance(1, 3) {
-			*self.r.pick(&[ClockSpeed::TicksPerSecond(0.0), ClockSpeed::TicksPerSecond(-5.0), ClockSpeed::SecondsPerTick(1e300), ClockSpeed::SecondsPerTick(-1.0), ClockSpeed::TicksPerMinute(0.0), ClockSpeed::TicksPerSecond(1e4)])
+			*self.r.pick(&[
+				ClockSpeed::TicksPerSecond(0.0),
+				ClockSpeed::TicksPerSecond(-5.0),
+				ClockSpeed::SecondsPerTick(1e300),
+				ClockSpeed::SecondsPerTick(-1.0),
+				ClockSpeed::TicksPerMinute(0.0),
+				ClockSpeed::TicksPerSecond(1e4),
+				// the former F7 region: infinite, stuck (x - 1 == x) and merely huge tick increments
+				ClockSpeed::SecondsPerTick(0.0),
+				ClockSpeed::SecondsPerTick(5e-324),
+				ClockSpeed::TicksPerSecond(1e300),
+				ClockSpeed::TicksPerSecond(-1e300),
+				ClockSpeed::TicksPerSecond(1e9),
+				ClockSpeed::TicksPerSecond(1e15),
+				ClockSpeed::TicksPerSecond(4.0e19),
+				ClockSpeed::TicksPerMinute(f64::MAX),
+			])
 		} else {
 			ClockSpeed::TicksPerSecond(1.0 + self.r.unit_f64() * 200.0)
 		}
@@ -1800,10 +1804,16 @@ fn corpus() -> Vec<(Option<&'static str>, &'static str, Scene)> {
 	let mut s = base_scene(48000, 64);
 	s.ops = vec![Op::Play(PlaySpec { looped: Some((0.0, 0.001)), ..plain_play(48000, 100, 1) }), Op::Cmd(CmdSpec { which: 6, seek: 1e300, ..plain_cmd() }), cb.clone()];
 	v.push((Some(HZ_SEEK), "sound.seek_to(1e300) on a sound with a loop region", s));
-	// F7
+	// F7 (repaired): regression scenes
 	let mut s = base_scene(48000, 64);
 	s.ops = vec![Op::AddClock { speed: ClockSpeed::SecondsPerTick(0.0), start: true }, cb.clone(), cb.clone()];
-	v.push((Some(HZ_CLOCK), "add_clock(SecondsPerTick(0.0)); start; callbacks", s));
+	v.push((None, "F7: add_clock(SecondsPerTick(0.0)); start; callbacks", s));
+	let mut s = base_scene(48000, 64);
+	s.ops = vec![Op::AddClock { speed: ClockSpeed::TicksPerSecond(1e300), start: true }, cb.clone(), cb.clone()];
+	v.push((None, "F7: add_clock(TicksPerSecond(1e300)); start; callbacks", s));
+	let mut s = base_scene(1, 64);
+	s.ops = vec![Op::AddClock { speed: ClockSpeed::TicksPerSecond(1e9), start: true }, cb.clone(), cb.clone()];
+	v.push((None, "F7 (finite cost): add_clock(TicksPerSecond(1e9)) on a 1 Hz device; start; callbacks", s));
 	// F8
 	let mut s = base_scene(48000, 64);
 	s.ops = vec![Op::Play(PlaySpec { rate: 1e300, looped: Some((0.0, 0.001)), ..plain_play(48000, 100, 1) }), cb.clone()];
